@@ -14,7 +14,7 @@ TreeGoals ==
     <<"eq", Z, Pair(X, N(6))>>, <<"eq", L2(X, Y), L2(Y, N(5))>>, <<"eq", X, TCons(Y, Nil)>>,
     <<"neq", X, N(5)>>, <<"neq", Y, N(6)>>, <<"neq", X, Y>>, <<"neq", L2(X, Y), L2(N(5), N(6))>>,
     <<"neq", Z, L2(X, Y)>>, <<"neq", Z, Pair(N(5), Y)>>, <<"neq", X, TCons(Y, Nil)>> }
-TreeGoalsAt(n) == TreeGoals
+TreeGoalsAfter(p) == TreeGoals
 
 Atoms == {<<"num", 5>>, <<"num", 6>>, <<"sym", "s:fa">>, <<"sym", "s:fb">>}
 (* X and Y range over atoms, nil and one-element lists; Z additionally over pairs and Pair
